@@ -134,7 +134,14 @@ func c06Run(path string, limit int) (out c06Out) {
 			out.Panic = fmt.Sprint(r) + "\n" + st
 		}
 	}()
-	fd := dumpFile(path, false)
+	// quick tier (limit > 0): dumpFile without data (it would hex-encode whole datasets), values fetched below and
+	// truncated before encoding; thorough tier: dumpFile with everything
+	nodata := limit > 0
+	fd := dumpFile(path, nodata)
+	byPath := map[string]*objDump{}
+	for i := range fd.Objects {
+		byPath[fd.Objects[i].Path] = &fd.Objects[i]
+	}
 	out.Extra = map[string]c06Extra{}
 	// second pass over the same public API for what dumpFile does not report
 	if fd.OpenErr == "" && fd.Panic == "" {
@@ -183,6 +190,9 @@ func c06Run(path string, limit int) (out c06Out) {
 							}
 						}
 					}
+					if od := byPath[p]; nodata && od != nil {
+						c06FillData(f, o, od, &ex, limit)
+					}
 					out.Extra[p] = ex
 				}
 			})
@@ -196,9 +206,11 @@ func c06Run(path string, limit int) (out c06Out) {
 		}
 		ex := out.Extra[od.Path]
 		ex.Path = od.Path
-		ex.NRead = len(od.Read)
-		if od.Raw != nil {
-			ex.NRaw = len(*od.Raw) / 2
+		if !nodata {
+			ex.NRead = len(od.Read)
+			if od.Raw != nil {
+				ex.NRaw = len(*od.Raw) / 2
+			}
 		}
 		out.Extra[od.Path] = ex
 		if limit > 0 {
@@ -217,6 +229,40 @@ func c06Run(path string, limit int) (out c06Out) {
 	sort.Slice(out.Named, func(i, j int) bool { return out.Named[i].Path < out.Named[j].Path })
 	out.Dump = &fd
 	return out
+}
+
+// c06FillData does for one dataset what dumpFile does when data is requested, truncating before encoding.
+func c06FillData(f *hdf5.File, o *hdf5.Dataset, od *objDump, ex *c06Extra, limit int) {
+	defer func() {
+		if r := recover(); r != nil {
+			od.ReadErr = "panic: " + fmt.Sprint(r)
+		}
+	}()
+	if hdr, err := core.ReadObjectHeader(f.Reader(), o.Address(), f.Superblock()); err == nil {
+		_, raw, rerr := core.VerifDatasetRaw(f.Reader(), hdr, f.Superblock())
+		if rerr == nil {
+			ex.NRaw = len(raw)
+			if od.Size > 0 && len(raw) > limit*int(od.Size) {
+				raw = raw[:limit*int(od.Size)]
+			}
+			s := hex.EncodeToString(raw)
+			od.Raw = &s
+		}
+	}
+	if od.ReadErr == "" {
+		if vals, err := o.Read(); err != nil {
+			od.ReadErr = err.Error()
+		} else {
+			ex.NRead = len(vals)
+			if len(vals) > limit {
+				vals = vals[:limit]
+			}
+			od.Read = make([]string, len(vals))
+			for i, v := range vals {
+				od.Read[i] = fmt.Sprintf("%016x", math.Float64bits(v))
+			}
+		}
+	}
 }
 
 func c06ReadCompound(o *hdf5.Dataset, limit int) (res *c06Compound) {
